@@ -38,6 +38,11 @@ func (runInfo *runInfoStruct) convertValue(rv reflect.Value, rt reflect.Type) (r
 // convertReflectValueToTypeContext is convertReflectValueToType with the
 // context that script functions converted to Go func types will run under.
 func convertReflectValueToTypeContext(ctx context.Context, rv reflect.Value, rt reflect.Type) (reflect.Value, error) {
+	if rv.Kind() == reflect.Interface && rv.IsNil() && rv.Type() != rt && rt.Kind() == reflect.Interface {
+		// the nil of another interface type (a nil error returned by a Go function ...) becomes the nil of rt itself:
+		// handed such a value, reflect's Send / SetMapIndex copy a whole interface out of a one-word Value
+		return reflect.Zero(rt), nil
+	}
 	if rt == interfaceType || rv.Type() == rt {
 		// if reflect.Type is interface or the types match, return the provided reflect.Value
 		return rv, nil
